@@ -96,6 +96,7 @@ type State struct {
 	chans    map[string]string   // channel loc term -> declared channel name (copy-on-write)
 	inflight string
 	assumed  map[string]bool
+	noNames  bool
 }
 
 var cellCounter int
@@ -143,6 +144,12 @@ func (s *State) assumePC(t string) {
 // fresh declares a new constant of the sort of ty, constrained by its type invariant.
 func (s *State) fresh(prefix string, ty types.Type) Val {
 	if tup, ok := ty.(*types.Tuple); ok {
+		if tup.Len() == 0 {
+			return Val{Ty: ty}
+		}
+		if tup.Len() == 1 {
+			return s.fresh(prefix, tup.At(0).Type())
+		}
 		var vs []Val
 		for i := 0; i < tup.Len(); i++ {
 			vs = append(vs, s.fresh(prefix, tup.At(i).Type()))
@@ -163,7 +170,7 @@ func (s *State) freshSort(prefix, sort string) string {
 
 // name binds a (possibly large) term to a fresh constant to keep terms small.
 func (s *State) name(prefix string, sort string, term string) string {
-	if len(term) < 60 {
+	if len(term) < 60 || s.noNames {
 		return term
 	}
 	n := s.e.freshName(sanitize(prefix))
@@ -217,8 +224,12 @@ func (s *State) havocHeap(id string) {
 		return
 	}
 	s.heapTerm(id, sort)
+	old := s.heapTerm(id, sort)
 	n := s.e.freshName("Hv_" + sanitize(id))
 	s.declare(n, sort)
+	if id == "gh:$iofail" {
+		s.assume("(>= " + n + " " + old + ")") // the failure counter is monotone
+	}
 	s.heap[id] = n
 }
 
@@ -395,6 +406,10 @@ func (s *State) load(a *Addr) Val {
 		return Val{T: t, Ty: ty}
 	case AGlobal:
 		ty := a.RootTy
+		if c, ok := s.e.constGlobal(a.Global); ok {
+			t, ty2 := s.project(c, ty, a.Path)
+			return Val{T: t, Ty: ty2}
+		}
 		id := "G:" + a.Global.Pkg.Pkg.Name() + "." + a.Global.Name()
 		h := s.heapTerm(id, s.e.sortOf(ty))
 		t, ty2 := s.project(h, ty, a.Path)
